@@ -5,6 +5,8 @@
 package sync
 
 import (
+	"fmt"
+	"sort"
 	stdsync "sync"
 	"vsched"
 )
@@ -194,3 +196,105 @@ func rwFreeW(m *RWMutex) bool   { return !m.w && m.readers == 0 }
 func rwFreeR(m *RWMutex) bool   { return !m.w }
 func wgZero(wg *WaitGroup) bool { return wg.n == 0 }
 func onceDone(o *Once)          { o.done = true }
+
+// Map: sync.Map on the controlled scheduler - a mutex-protected map; every operation is a scheduling point (through
+// the mutex) and orders itself after the earlier operations on the map (for the race gate that is at least the
+// happens-before the real sync.Map guarantees between a Store and the Load that observes it).
+type Map struct {
+	mu Mutex
+	m  map[any]any
+}
+
+func (m *Map) Load(key any) (value any, ok bool) {
+	m.mu.Lock()
+	defer m.mu.Unlock()
+	value, ok = m.m[key]
+	return
+}
+
+func (m *Map) Store(key, value any) {
+	m.mu.Lock()
+	defer m.mu.Unlock()
+	if m.m == nil {
+		m.m = map[any]any{}
+	}
+	m.m[key] = value
+}
+
+func (m *Map) LoadOrStore(key, value any) (actual any, loaded bool) {
+	m.mu.Lock()
+	defer m.mu.Unlock()
+	if v, ok := m.m[key]; ok {
+		return v, true
+	}
+	if m.m == nil {
+		m.m = map[any]any{}
+	}
+	m.m[key] = value
+	return value, false
+}
+
+func (m *Map) LoadAndDelete(key any) (value any, loaded bool) {
+	m.mu.Lock()
+	defer m.mu.Unlock()
+	value, loaded = m.m[key]
+	delete(m.m, key)
+	return
+}
+
+func (m *Map) Delete(key any) { m.LoadAndDelete(key) }
+
+func (m *Map) Swap(key, value any) (previous any, loaded bool) {
+	m.mu.Lock()
+	defer m.mu.Unlock()
+	previous, loaded = m.m[key]
+	if m.m == nil {
+		m.m = map[any]any{}
+	}
+	m.m[key] = value
+	return
+}
+
+func (m *Map) CompareAndSwap(key, old, new any) bool {
+	m.mu.Lock()
+	defer m.mu.Unlock()
+	if v, ok := m.m[key]; ok && v == old {
+		m.m[key] = new
+		return true
+	}
+	return false
+}
+
+func (m *Map) CompareAndDelete(key, old any) bool {
+	m.mu.Lock()
+	defer m.mu.Unlock()
+	if v, ok := m.m[key]; ok && v == old {
+		delete(m.m, key)
+		return true
+	}
+	return false
+}
+
+// Range calls f for a snapshot of the entries (in insertion-independent, sorted-by-print order so that executions
+// are reproducible), outside the lock, as sync.Map does.
+func (m *Map) Range(f func(key, value any) bool) {
+	m.mu.Lock()
+	type kv struct{ k, v any }
+	var es []kv
+	for k, v := range m.m {
+		es = append(es, kv{k, v})
+	}
+	m.mu.Unlock()
+	sort.Slice(es, func(i, j int) bool { return fmt.Sprint(es[i].k) < fmt.Sprint(es[j].k) })
+	for _, e := range es {
+		if !f(e.k, e.v) {
+			return
+		}
+	}
+}
+
+func (m *Map) Clear() {
+	m.mu.Lock()
+	defer m.mu.Unlock()
+	m.m = nil
+}
